@@ -281,6 +281,37 @@ func genC10(ctx *Ctx) {
 		}
 		ctx.Input(mInput(tpl, vars, expect), len(ast) >= 2)
 	}
+	// scale (direct oracle only): sections nested 30 .. 400 deep (every spelling), and hundreds of sections, variables
+	// and comments side by side
+	for _, D := range []int{30, 70, 101, 130, 260, 400} {
+		vars := [][2]string{{"a", "1"}, {"B", "x"}, {"name", "<n>"}}
+		leaf := []*mnode{{kind: 0, text: "core"}, {kind: 1, name: "name"}, {kind: 2, name: "NAME"}}
+		nest := leaf
+		for i := 0; i < D; i++ {
+			k := 4
+			if i%5 == 4 {
+				k = 5
+			}
+			nm := []string{"a", "B", "A", "b", "zz"}[i%5]
+			if k == 5 && nm != "zz" {
+				k = 4
+			}
+			nest = []*mnode{{kind: 0, text: "<"}, {kind: k, name: nm, spelling: i, body: nest}, {kind: 0, text: ">"}}
+		}
+		var flat []*mnode
+		for i := 0; i < D*3; i++ {
+			flat = append(flat, &mnode{kind: 4, name: []string{"a", "B", "zz"}[i%3], spelling: i, body: []*mnode{{kind: 0, text: "s"}, {kind: 1, name: "B"}}}, &mnode{kind: 3, text: " c "}, &mnode{kind: 2, name: "name"})
+		}
+		for _, ast := range [][]*mnode{nest, flat} {
+			var names []string
+			mNamesInOrder(ast, &names)
+			var ns sx.List
+			for _, n := range names {
+				ns = append(ns, sx.S(n))
+			}
+			ctx.OracleOnly(mInput(mPrint(ctx.Rnd, ast), vars, sx.L(sx.S(mRender(ast, vars)), ns)), fmt.Sprintf("scale %d", D))
+		}
+	}
 	// malformed stream: a well-formed template broken in one place must be rejected
 	for i := 0; i < ctx.N; i++ {
 		ast := genMNodes(ctx.Rnd, 1+ctx.Rnd.Intn(3))
